@@ -89,6 +89,19 @@ def marker_case(rng):
     return {'kind': 'marker-combo', 's': s, 'whole': '{[#M]}.{#M=%s}' % whole, 'all_atom': True, 'legacy': True}
 
 
+def ladder_case(rng):
+    """two chains of k atoms joined rung by rung: k cut bonds between the SAME two fragments, the base-graph edge written
+    with the symbol of that order ('=', '#', '$' for two, three, four bonds)"""
+    k = rng.choice([2, 3, 4, 4])
+    a = ''.join('C[$r%d]' % i for i in range(k))
+    b = ''.join('C[$r%d]' % i for i in range(k))
+    whole = ''.join('C%d' % (i + 1) for i in range(k - 1)) + 'CC' + ''.join('C%d' % i for i in range(k - 1, 0, -1))
+    sym = {2: '=', 3: '#', 4: '$'}[k]
+    base = rng.choice(['{[#A]%s[#B]}', '{[#B]%s[#A]}']) % sym
+    return {'kind': 'marker-combo', 's': '%s.{#A=%s,#B=%s}' % (base, a, b), 'whole': '{[#M]}.{#M=%s}' % whole,
+            'all_atom': True, 'legacy': True}
+
+
 def marker_oracle(ctx, case, steps, ctor_err):
     if steps is None or steps[-1]['result'] != 'ok':
         ctx.fail(suites.slim(case), 'valid cut description (two ring markers on one base-graph node) rejected')
@@ -105,6 +118,7 @@ def run(ctx):
     rng_m = ctx.rng('markers')
     for _ in range(ctx.budget(20, 200)):
         suites.run_resolve_case(ctx, 'marker-combo', marker_case(rng_m), oracle=marker_oracle)
+        suites.run_resolve_case(ctx, 'marker-combo', ladder_case(rng_m), oracle=marker_oracle)
     ctx.feature('two-ring-markers-on-one-base-node')
     rng = ctx.rng('cut')
     for i in range(ctx.budget(400, 8000)):
